@@ -22,7 +22,8 @@ RULE = ('linkers over 0..4 scripted submodels (outcome scripts of length <= 4 pe
         'variable), every subset and several orders for submodels=, min_iter/max_iter/tol/failures lattice, offsets in and out of '
         'span, unknown ids, differing spans, differing lags/leads; twin run linker({m}) vs m for parser-built models. '
         'non-trivial = distinct (scripts, selection, options) case with at least one submodel')
-ASSUMPTIONS = ['"pre-hook" / "post-hook" of an iteration are evaluate_t_before / evaluate_t_after; solve_t_before / solve_t_after run once per period',
+ASSUMPTIONS = ['a selection refused for an unknown id is refused as a whole: KeyError is raised before any value is seeded from t+offset (iteration counters are not asserted)',
+               '"pre-hook" / "post-hook" of an iteration are evaluate_t_before / evaluate_t_after; solve_t_before / solve_t_after run once per period',
                'a non-finite check variable has not "moved by less than tol" (NaN / inf differences never count as converged); no errors= policy is asserted for linkers']
 ANCHORS = [('fsic/core/linkers.py', 'BaseLinker.__init__'), ('fsic/core/linkers.py', 'BaseLinker.solve_t'),
            ('fsic/core/linkers.py', 'BaseLinker.evaluate_t'), ('fsic/core/linkers.py', 'BaseLinker.solve')]
@@ -360,6 +361,20 @@ def structural(ctx):
             ctx.violation('unknown-submodel-id', f'submodels=["a", {bad!r}]: expected KeyError, got {r}', {'kind': 'unknown-id', 'id': repr(bad)})
         elif any(x[0] == 'sub' for x in linker.__dict__['v_log']):
             ctx.violation('unknown-submodel-id', 'a submodel was evaluated although the selection contains an unknown id', {'kind': 'unknown-id', 'id': repr(bad)})
+        # ... with an offset as well, wherever the unknown id stands in the selection: the selection is refused as a whole, so no
+        # value of the linker or of any submodel has been seeded from t+offset by the time KeyError is raised
+        for sel in (['a', bad], [bad, 'a'], ['a', 'b', bad], [bad]):
+            for off in (-1, 1, 2):
+                linker, subs = build(case)
+                vals = lambda: {key: {nm: m[nm].tolist() for nm in ('A', 'B', 'X')} for key, m in subs.items()} | {'_': {'L': linker.L.tolist(), 'Q': linker.Q.tolist()}}   # noqa: E731
+                before = vals()
+                ctx.count('structural_checks')
+                r = call(linker.solve_t, 1, submodels=list(sel), offset=off)
+                if not (r[0] == 'exc' and r[1] == 'KeyError'):
+                    ctx.violation('unknown-submodel-id', f'submodels={sel!r}, offset={off}: expected KeyError, got {r}', {'kind': 'unknown-id', 'id': repr(bad), 'offset': off})
+                elif vals() != before:
+                    ch = [(k, nm) for k in before for nm in before[k] if before[k][nm] != vals()[k][nm]]
+                    ctx.violation('unknown-submodel-id', f'submodels={sel!r}, offset={off}: KeyError raised after values were seeded from t+offset: changed {ch}', {'kind': 'unknown-id', 'id': repr(bad), 'offset': off})
     # offsets out of span raise IndexError and change nothing
     for k, (t, off) in enumerate([(0, -1), (3, 1), (1, -2), (2, 5), (-1, 1), (-4, -1)]):
         if not ctx.mine(k):
